@@ -297,7 +297,8 @@ def topsort_cases(tier):
     items have one slot each.  quick: 3 items; thorough: also 4 items and varied secondary positions."""
     kind_sets = [("struct", "struct", "struct"), ("struct", "enum", "alias"), ("enum", "alias", "struct"), ("alias", "struct", "const"),
                  ("const", "struct", "alias"), ("struct", "gstruct", "struct"), ("enum", "gstruct", "alias"), ("alias", "gstruct", "struct"),
-                 ("gstruct", "struct", "struct"), ("gstruct", "enum", "enum"), ("gstruct", "enum", "struct")]
+                 ("gstruct", "struct", "struct"), ("gstruct", "enum", "enum"), ("gstruct", "enum", "struct"),
+                 ("alias", "struct", "alias"), ("alias", "enum", "alias"), ("alias", "alias", "struct"), ("alias", "alias", "alias")]
     if tier == "thorough":
         kind_sets += [("struct", "struct", "struct", "struct"), ("enum", "enum", "struct"), ("alias", "alias", "alias"),
                       ("struct", "gstruct", "enum", "alias"), ("enum", "struct", "alias", "const"), ("alias", "enum", "gstruct", "struct")]
